@@ -1079,9 +1079,22 @@ func (t *Term) leafString() string {
 			return t.Big.String()
 		}
 	case OSym:
-		return symName(t.Name)
+		return symNameSorted(t.Name, t.S)
 	}
 	return fmt.Sprintf("t%d", t.ID)
+}
+
+// symNameSorted: the printed name carries the sort, because the same nondet name can get different
+// sorts on different paths while declarations are global in the incremental solver.
+func symNameSorted(n string, s Sort) string {
+	code := "b"
+	switch s.K {
+	case SBV:
+		code = fmt.Sprintf("w%d", s.W)
+	case SInt:
+		code = "i"
+	}
+	return "|v." + strings.NewReplacer("|", "_", "\\", "_").Replace(n) + "~" + code + "|"
 }
 
 func symName(n string) string { return "|v." + strings.NewReplacer("|", "_", "\\", "_").Replace(n) + "|" }
